@@ -7,6 +7,44 @@ use core::sync::atomic::*;
 
 use log::trace;
 
+/// Verification hook (feature `verif`): called before every access of an [`Atom`].
+#[cfg(feature = "verif")]
+pub mod verif {
+    use core::sync::atomic::{AtomicUsize, Ordering};
+
+    /// Kind of the atomic access that is about to happen.
+    #[derive(Clone, Copy, Debug, PartialEq, Eq)]
+    pub enum Op {
+        Load,
+        Store,
+        Swap,
+        Cas,
+        Rmw,
+    }
+    /// Hook signature: operation, address and size in bytes of the atomic.
+    pub type Hook = fn(Op, usize, usize);
+
+    static HOOK: AtomicUsize = AtomicUsize::new(0);
+
+    /// Install (or remove) the process-wide hook.
+    pub fn set_hook(hook: Option<Hook>) {
+        HOOK.store(hook.map_or(0, |h| h as usize), Ordering::SeqCst);
+    }
+    /// Returns whether a hook is installed.
+    #[inline]
+    pub fn installed() -> bool {
+        HOOK.load(Ordering::Relaxed) != 0
+    }
+    #[inline]
+    pub(crate) fn call(op: Op, addr: usize, bytes: usize) {
+        let h = HOOK.load(Ordering::Relaxed);
+        if h != 0 {
+            let h: Hook = unsafe { core::mem::transmute::<usize, Hook>(h) };
+            h(op, addr, bytes);
+        }
+    }
+}
+
 /// Atomic wrapper for types that can be converted into atomics
 ///
 /// See [`core::sync::atomic::AtomicU64`] for the documentation.
@@ -20,21 +58,29 @@ impl<T: Atomic> Atom<T> {
     #[cfg_attr(feature = "log_trace", track_caller)]
     pub fn load(&self) -> T {
         trace!("{} load", core::panic::Location::caller());
+        #[cfg(feature = "verif")]
+        verif::call(verif::Op::Load, self as *const Self as usize, size_of::<T::I>());
         self.0.load().into()
     }
     #[cfg_attr(feature = "log_trace", track_caller)]
     pub fn store(&self, v: T) {
         trace!("{} store", core::panic::Location::caller());
+        #[cfg(feature = "verif")]
+        verif::call(verif::Op::Store, self as *const Self as usize, size_of::<T::I>());
         self.0.store(v.into());
     }
     #[cfg_attr(feature = "log_trace", track_caller)]
     pub fn swap(&self, v: T) -> T {
         trace!("{} swap", core::panic::Location::caller());
+        #[cfg(feature = "verif")]
+        verif::call(verif::Op::Swap, self as *const Self as usize, size_of::<T::I>());
         self.0.swap(v.into()).into()
     }
     #[cfg_attr(feature = "log_trace", track_caller)]
     pub fn compare_exchange(&self, current: T, new: T) -> Result<T, T> {
         trace!("{} cmpxchg", core::panic::Location::caller());
+        #[cfg(feature = "verif")]
+        verif::call(verif::Op::Cas, self as *const Self as usize, size_of::<T::I>());
         match self.0.compare_exchange(current.into(), new.into()) {
             Ok(v) => Ok(v.into()),
             Err(v) => Err(v.into()),
@@ -43,6 +89,8 @@ impl<T: Atomic> Atom<T> {
     #[cfg_attr(feature = "log_trace", track_caller)]
     pub fn compare_exchange_weak(&self, current: T, new: T) -> Result<T, T> {
         trace!("{} cmpxchgw", core::panic::Location::caller());
+        #[cfg(feature = "verif")]
+        verif::call(verif::Op::Cas, self as *const Self as usize, size_of::<T::I>());
         match self.0.compare_exchange_weak(current.into(), new.into()) {
             Ok(v) => Ok(v.into()),
             Err(v) => Err(v.into()),
@@ -51,6 +99,19 @@ impl<T: Atomic> Atom<T> {
     #[cfg_attr(feature = "log_trace", track_caller)]
     pub fn try_update<F: FnMut(T) -> Option<T>>(&self, mut f: F) -> Result<T, T> {
         trace!("{} update", core::panic::Location::caller());
+        #[cfg(feature = "verif")]
+        if verif::installed() {
+            // Hooked load, then hooked CAS loop, so that a scheduler can run
+            // other threads between the load and the CAS.
+            let mut cur = self.load();
+            loop {
+                let Some(new) = f(cur) else { return Err(cur) };
+                match self.compare_exchange(cur, new) {
+                    Ok(v) => return Ok(v),
+                    Err(v) => cur = v,
+                }
+            }
+        }
         match self.0.try_update(|v| f(v.into()).map(Into::into)) {
             Ok(v) => Ok(v.into()),
             Err(v) => Err(v.into()),
@@ -59,6 +120,16 @@ impl<T: Atomic> Atom<T> {
     #[cfg_attr(feature = "log_trace", track_caller)]
     pub fn update<F: FnMut(T) -> T>(&self, mut f: F) -> T {
         trace!("{} update", core::panic::Location::caller());
+        #[cfg(feature = "verif")]
+        if verif::installed() {
+            let mut cur = self.load();
+            loop {
+                match self.compare_exchange(cur, f(cur)) {
+                    Ok(v) => return v,
+                    Err(v) => cur = v,
+                }
+            }
+        }
         self.0.update(|v| f(v.into()).into()).into()
     }
 }
@@ -124,6 +195,8 @@ macro_rules! fn_trivial {
     ($ty:ident ; $($name:ident),+) => {
         $(
             pub fn $name(&self, v: $ty) -> $ty {
+                #[cfg(feature = "verif")]
+                verif::call(verif::Op::Rmw, self as *const Self as usize, size_of::<$ty>());
                 AtomicImpl::$name(&self.0, v)
             }
         )+
